@@ -33,9 +33,9 @@ CHECKS = {
          "The arity table is the harness's (h/drive call sites); it was validated against the unchanged tree. Uses only public observers (InternalStack().Len, Scope, Func, InVBlock, LookupLabel) - no hook needed. Error-recovery histories are outside the quantifier.",
          "property-based stateful testing: invariants checked after every step of generated operation histories"),
  "C17": ("exploration",
-         "Hostile-input search under three configurations (default, XGo-builtin, bare): a deterministic operation x operand-kind grid (every template with every ill-typed operand kind; thorough tier enumerates it completely), random extreme constant trees, nesting up to 3000 deep, and multi-mutation mutants of valid programs. A recovered panic carrying a runtime.Error (or a non-error, non-string value) is a violation; the worker has a 6 GiB address-space limit and a 180 s per-case watchdog, and a worker death is a violation only when it reproduces with the case run alone; nesting families must not slow down more than x100 per x4.",
+         "Hostile-input search under three configurations (default, XGo-builtin, bare): a deterministic operation x operand-kind grid (every template with every ill-typed operand kind; thorough tier enumerates it completely), random extreme constant trees, nesting up to 3000 deep, and multi-mutation mutants of valid programs. A recovered panic carrying a runtime.Error (or a non-error, non-string value) is a violation; the worker has a 6 GiB address-space limit and a 180 s per-case watchdog, and a worker death is a violation only when it reproduces with the case run alone; nesting families must not need more than x160 the CPU time for x4 the size (process CPU time, best of three measurements; a cubic algorithm needs x64).",
          "DESIGN.md §7 C17",
-         "Reported errors of any kind (incl. log.Panicln TODO messages) count as clean rejections. Time is only used to detect hangs (confirmed in isolation). The cubic cost of printing deeply nested function literals (stock gofmt is linear) is below the stated bound and documented, not asserted.",
+         "Reported errors of any kind (incl. log.Panicln TODO messages) count as clean rejections. Time is a verdict only as the hang watchdog (confirmed in isolation) and as the CPU-time scaling bound (three measurements). The cubic cost of printing deeply nested function literals (stock gofmt is linear) is below the stated bound and documented, not asserted.",
          "fuzzing-style generated search with a run-time-fault oracle; exhaustive small-scope grid in the thorough tier"),
  "C10": ("exploration",
          "Function bodies generated from a control-flow grammar (all statement forms that matter for termination analysis and labels, closures with their own label space, shadowed panic) are confirmed by go/types to contain no error other than 'missing return', 'label declared and not used', 'label already declared'; the multiset of these diagnostics reported by go/types must equal the multiset delivered by the builder (error handler and panics). Sampling of an unbounded grammar.",
